@@ -177,11 +177,15 @@ func ownState(v ssa.Value, d int) bool {
 		return f != nil && f.Signature.Recv() != nil && len(f.Params) > 0 && f.Params[0] == x
 	case *ssa.FreeVar:
 		return true
+	case *ssa.MakeSlice, *ssa.Alloc:
+		return true // a structure this function built itself and fills itself: not a value handed in
 	case *ssa.FieldAddr:
 		return ownState(x.X, d+1)
 	case *ssa.Field:
 		return ownState(x.X, d+1)
 	case *ssa.IndexAddr:
+		return ownState(x.X, d+1)
+	case *ssa.Slice:
 		return ownState(x.X, d+1)
 	case *ssa.UnOp:
 		return ownState(x.X, d+1)
